@@ -1,4 +1,59 @@
-(** C02 — placeholder until Pop/SmProofs.v lands (replaced below in the same session) *)
-Theorem C02_placeholder : True.
-Proof. exact I. Qed.
-Print Assumptions C02_placeholder.
+(** C02 — setState / comparePopScore are atomic. Theorems about the closed, instantiated machine
+    (Pop/SmDefs.v: as-coded model; concrete reference-count protecting state). Each is [exact] of a lemma of
+    Pop/SmProofs.v.
+
+    FULL statements aimed at (kept visible; the parts not proved are named):
+      setState_atomic : setState s to = Ok (s', true)  -> tip s' = to /\ applied blocks of s' = root..to /\ to fully valid
+                        setState s to = Ok (s', false) -> pst s' = pst s /\ applied set unchanged /\ marks changed only on
+                        the target branch (FAILED_POP on the first failing block, FAILED_CHILD below it, raised levels)
+      compare_atomic  : result >= 0 -> tip and P unchanged modulo candidate-branch marks; < 0 -> candidate is tip,
+                        exactly root..candidate applied;   never Abort from reachable states.
+    PROVED for all trees / payloads / failing positions / histories: group and block atomicity (exact), exact inverse of
+    apply/unapply, and for setState / compare: P is always exactly the effects of the blocks flagged applied (nothing
+    leaks, whatever fails where), true => target is tip, fully valid, counter = chain length; false => tip unchanged,
+    counter = chain length, target invalid.
+    GAP (hence _partial): that the set of blocks flagged applied is root..tip after the call (the walk over parent
+    pointers) and Abort-freedom; both are covered by the correspondence run (flags, counter and P compared after
+    every call) and the direct oracle. *)
+From Coq Require Import List ZArith NArith Bool Permutation.
+From VB Require Import Pop.SmDefs Pop.SmProofs.
+
+Theorem C02_group_exec_atomic :
+  forall g p p', group_execute pstate ccmd cexec cunexec g p = (p', false) -> p' = p.
+Proof. exact c_group_exec_atomic. Qed.
+Print Assumptions C02_group_exec_atomic.
+
+Theorem C02_group_unexecute_inverse :
+  forall g p p', group_execute pstate ccmd cexec cunexec g p = (p', true) -> group_unexecute pstate ccmd cunexec g p' = p.
+Proof. exact c_group_unexec_exec. Qed.
+Print Assumptions C02_group_unexecute_inverse.
+
+Theorem C02_applyBlock_atomic :
+  forall s i s', c_applyBlock s i = Ok (s', false) ->
+    pst _ _ s' = pst _ _ s /\ napp _ _ s' = napp _ _ s /\ tip _ _ s' = tip _ _ s /\ root _ _ s' = root _ _ s /\
+    map (strip ccmd) (blocks _ _ s') = map (strip ccmd) (blocks _ _ s).
+Proof. exact c_applyBlock_atomic. Qed.
+Print Assumptions C02_applyBlock_atomic.
+
+Theorem C02_unapply_apply_exact :
+  forall s i s1 s2, c_applyBlock s i = Ok (s1, true) -> c_unapplyBlock s1 i = Ok s2 ->
+    pst _ _ s2 = pst _ _ s /\ napp _ _ s2 = napp _ _ s /\ tip _ _ s2 = tip _ _ s.
+Proof. exact c_unapply_apply. Qed.
+Print Assumptions C02_unapply_apply_exact.
+
+Theorem C02_setState_atomic_partial :
+  forall base s to s' ok,
+    canon base s -> c_setState s to = Ok (s', ok) ->
+    Permutation (pst _ _ s') (active_items (blocks _ _ s') ++ base) /\
+    (ok = true -> tip _ _ s' = to /\ napp _ _ s' = chain_count _ _ s' to /\
+                  exists b, find ccmd (blocks _ _ s') to = Some b /\ valid_upto _ b L_FULL = true) /\
+    (ok = false -> tip _ _ s' = tip _ _ s /\ napp _ _ s' = chain_count _ _ s' (tip _ _ s') /\
+                   exists b, find ccmd (blocks _ _ s') to = Some b /\ is_failed _ b = true).
+Proof. exact setState_outcome. Qed.
+Print Assumptions C02_setState_atomic_partial.
+
+Theorem C02_compare_atomic_partial :
+  forall base score crossed s c s' r,
+    canon base s -> c_compare score crossed s c = Ok (s', r) -> canon base s'.
+Proof. exact canon_compare. Qed.
+Print Assumptions C02_compare_atomic_partial.
